@@ -73,6 +73,10 @@ SHAPES = {
     "same_pitch_twice": [[("on", 0, 0, 0), ("off", 0, 0), ("on", 0, 0, 1), ("on0", 0, 0)]],
     "meta": [[("ts", 3, 8), ("tempo", 600000), ("ks", "Eb"), ("on", 3, 0, 0), ("off", 3, 0), ("ts", 4, 4)]],
     "no_tempo": [[("on", 0, 0, 0), ("cc", 0, 67, 1), ("pc", 0, 9), ("off", 0, 0)]],
+    # overlapping notes on neighbouring channels (pairing is per channel and pitch)
+    "two_channels": [[("on", 0, 0, 0), ("on", 1, 1, 1), ("off", 0, 0), ("off", 1, 1)]],
+    # a later track repeats the earlier track's last tempo value at an earlier tick
+    "tempo_repeat_other_track": [[("tempo", 600000), ("tempo", 250000)], [("tempo", 250000), ("on", 0, 0, 0), ("off", 0, 0)]],
 }
 
 
@@ -89,8 +93,8 @@ def make_load(shape, merge=False, ppq=480):
         v = [kw["v0"], kw["v1"]]
         # the loader keys a builtin dict by channel*128+pitch: hashing realises the pitch, so pitches are
         # restricted to three values (below / above the other note matters for the id order)
-        require(p[0] == 60 or p[0] == 64)
-        require(p[1] == 62)
+        require(p[0] == 60 or p[0] == 64 or p[0] == 127)
+        require(p[1] == 62 or p[1] == 0)
         require(1 <= v[0] <= 127)
         require(1 <= v[1] <= 127)
         mf = mido.MidiFile(type=1 if len(tracks) > 1 else 0, ticks_per_beat=ppq)
@@ -305,7 +309,7 @@ def _adjust_inst(tier):
 def _load_inst(tier):
     if tier == "quick":
         return [{"shape": s} for s in ("one_track_tempo_mid", "tempo_track_first", "same_pitch_twice", "meta",
-                                        "no_tempo", "tempo_both_tracks")]
+                                        "no_tempo", "tempo_both_tracks", "two_channels", "tempo_repeat_other_track")]
     out = [{"shape": s} for s in SHAPES]
     out += [{"shape": "tempo_track_first", "merge": True}]
     if tier != "quick":
@@ -340,7 +344,7 @@ HARNESSES = [
                  "PerformedPart.__init__", "Performance.__init__", "adjust_offsets_w_sustain", "mido.MidiFile/MidiTrack/Message (in memory)"],
       bounds="in-memory MIDI files from the SHAPES catalogue (1-2 tracks, <=2 notes, tempo events in any track, "
              "zero-velocity note-ons, control/program/meta events), all delta times symbolic ints <= 10^6, "
-             "velocities symbolic, pitches from {60,62,64}; tempo events of different tracks at the same tick excluded",
+             "velocities symbolic, pitches from {0,60,62,64,127}; tempo events of different tracks at the same tick excluded",
       outside="file bytes (mido parser/writer); more events"),
     H("save", make_save, _save_inst, budget={"quick": 150, "thorough": 900},
       models=["symnp:partitura.performance,partitura.io.exportmidi", "symdict_exportmidi"],
